@@ -16,6 +16,7 @@
 //	race id=<n> kinds=<c|r|t|k,...>                       Start() an operator that was never offered, then one goroutine
 //	                                                     per kind at once: Cancel / Replace / CheckTimeout (made old) /
 //	                                                     CheckSuccess (operator without steps)
+//	influence                                            GetOpInfluence (lazy CheckTimeout / CheckSuccess on running operators)
 //	sleep ms=<n>                                         real time passes (notifier entries become due)
 //	exec r=<id>                                          the store executes the last command it received
 //	fadd r= p=<peer> | frm r= s= | flead r= s= | caught r= | frange r=     foreign events on the store
@@ -36,6 +37,7 @@ import (
 	"sync"
 	"sync/atomic"
 	"time"
+	"unsafe"
 
 	"github.com/pingcap/kvproto/pkg/metapb"
 	"github.com/pingcap/kvproto/pkg/pdpb"
@@ -146,6 +148,14 @@ var statusNames = map[operator.OpStatus]string{
 	operator.REPLACED: "R", operator.EXPIRED: "E", operator.TIMEOUT: "T",
 }
 
+// records reads the controller's remembered end statuses (unexported field `opRecords`, exported type and
+// Get method): the record of a region whether or not an operator runs there now.
+func (w *world) record(region uint64) *schedule.OperatorWithStatus {
+	f := reflect.ValueOf(w.oc).Elem().FieldByName("opRecords")
+	recs := (*schedule.OperatorRecords)(unsafe.Pointer(f.Pointer()))
+	return recs.Get(region)
+}
+
 func curStep(op *operator.Operator) int64 {
 	return reflect.ValueOf(op).Elem().FieldByName("currentStep").Int()
 }
@@ -181,10 +191,14 @@ func (w *world) digest(res string) string {
 	opsim.SortedU64(regions)
 	var recs []string
 	for _, r := range regions {
-		if running[r] {
-			continue
+		if !running[r] {
+			// what a client sees (GetOperatorStatus) must be the record
+			if a, b := w.oc.GetOperatorStatus(r), w.record(r); (a == nil) != (b == nil) || (a != nil && a.Op != b.Op) {
+				recs = append(recs, fmt.Sprintf("%d:status-query-differs-from-record", r))
+				continue
+			}
 		}
-		if rec := w.oc.GetOperatorStatus(r); rec != nil {
+		if rec := w.record(r); rec != nil {
 			recs = append(recs, fmt.Sprintf("%d:%d:%s", r, w.ids[rec.Op], statusNames[rec.Op.Status()]))
 		}
 	}
@@ -453,6 +467,10 @@ func (w *world) exec(opLine string, generating bool) (string, string) {
 			op.CheckSuccess()
 		}
 		return opLine, rep.String()
+	case "influence":
+		// GetOpInfluence runs CheckTimeout / CheckSuccess on every running operator (statuses turn lazily)
+		w.oc.GetOpInfluence(w.cl)
+		return opLine, w.digest("ok")
 	case "sleep":
 		// real time passes (a little more than the model is told, so that "due" is never a close call)
 		time.Sleep(time.Duration(atou(kv["ms"])+100) * time.Millisecond)
@@ -832,9 +850,46 @@ func gen(w *world, t *trace.W, r *rng.R, events int, faithful bool, sleeps int) 
 		}
 		w.run(t, fmt.Sprintf("race id=%d kinds=%s", id, strings.Join(kinds, ",")), true)
 	}
+	// an operator ends lazily while still registered (already satisfied at admission, or made old and touched by
+	// GetOpInfluence), then a higher-priority operator is admitted for the same region before the next dispatch
+	lazyThenHigher := func() {
+		region := anyRegion()
+		s := w.sims[region]
+		if s == nil || len(s.Peers) == 0 {
+			return
+		}
+		w.run(t, fmt.Sprintf("hb r=%d", region), true) // PD's cache = the store's state
+		a := nextID
+		nextID++
+		if r.Bool(1, 2) {
+			w.run(t, fmt.Sprintf("mkop id=%d d=0 r=%d cv=%d v=%d lvl=%d kr=0 km=0 steps=tl:%d>%d", a, region, s.ConfVer, s.Version,
+				r.Range(0, 1), s.Leader, s.Leader), true)
+			opIDs = append(opIDs, a)
+			w.run(t, fmt.Sprintf("add ids=%d", a), true)
+		} else {
+			w.run(t, fmt.Sprintf("mkop id=%d d=0 r=%d cv=%d v=%d lvl=%d kr=1 km=0 steps=al:%d#%d", a, region, s.ConfVer, s.Version,
+				r.Range(0, 1), 9, 700+a), true)
+			opIDs = append(opIDs, a)
+			w.run(t, fmt.Sprintf("add ids=%d", a), true)
+			w.run(t, fmt.Sprintf("timeout id=%d", a), true)
+			w.run(t, "influence", true)
+		}
+		b := nextID
+		nextID++
+		w.run(t, fmt.Sprintf("mkop id=%d d=1 r=%d cv=%d v=%d lvl=2 kr=0 km=0 steps=%s", b, region, s.ConfVer, s.Version,
+			handSteps(r, s)), true)
+		opIDs = append(opIDs, b)
+		w.run(t, fmt.Sprintf("add ids=%d", b), true)
+	}
 	for e := 0; e < events; e++ {
 		if e%12 == 3 {
 			raceOne()
+		}
+		if e%25 == 9 {
+			lazyThenHigher()
+		}
+		if e%17 == 5 {
+			w.run(t, "influence", true)
 		}
 		if sleeps > 0 && e > 5 && e%(events/(sleeps+1)+1) == 0 {
 			w.run(t, "sleep ms=2000", true)
